@@ -113,4 +113,27 @@ def monStarts (tr : List Msg) : List Nat :=
 def monEnds (tr : List Msg) : List Nat :=
   tr.filterMap (fun m => match m with | .monEnd _ a => some a | _ => none)
 
+/-! ### the record log seen without knowing what kind of activity a record belongs to -/
+
+/-- the activity a record opens: a record with `startedAtTime` opens the activity named by its `@id` (a job
+    activity or a monitor activity) -/
+def Msg.opens : Msg → Option Nat
+  | .start a => some a
+  | .monStart m _ => some m
+  | _ => none
+
+/-- the activity a record closes: a record with `endedAtTime` closes the activity named by its `@id` -/
+def Msg.closes : Msg → Option Nat
+  | .end_ a _ => some a
+  | .monEnd m _ => some m
+  | _ => none
+
+def opened (tr : List Msg) : List Nat := tr.filterMap Msg.opens
+def closed (tr : List Msg) : List Nat := tr.filterMap Msg.closes
+
+/-- every activity id is opened at most once, and has exactly as many end records as start records under that
+    very id: each started activity — job or monitor — has exactly one end record, and nothing else is ended -/
+def WellClosed (tr : List Msg) : Prop :=
+  (opened tr).Nodup ∧ ∀ id, (closed tr).count id = (opened tr).count id
+
 end PydraModel.JobProto.Audit
